@@ -44,9 +44,7 @@ ClassModel("RawResult", methods={"__await__": C("user:raw-await")})
 rc = ClassModel("RawCallable", fields={"is_partial": "bool", "func": "RawCallable", "__name__": "str", "__doc__": "Val"},
                 methods={"__call__": C("user:raw-call")})
 rc.isinstance_fn = lambda path, v, cls: path.sel("RawCallable.is_partial", v.e) if cls == "partial" else z3.BoolVal(cls == "RawCallable")
-GLOBAL_NAMES["partial"] = Py(("class", "partial"))
-if "partial" not in CLASSES:
-    ClassModel("partial")
+# `partial` stays the builtin model of contracts/dispatcher.py; isinstance(x, partial) asks the class model (isinstance_fn)
 
 CLASSES["BoundArguments"].fields.update({"args": "list[Val]", "kwargs": "dict[str,Val]"})
 HEAP_SORTS.setdefault("BoundArguments.args", A_II)
